@@ -21,8 +21,8 @@ def run(ctx):
     ctx.build(["vh-gemm"])
     if ctx.replay:
         return replay(ctx)
-    n = 60 if ctx.quick else 1000
-    chunk = 60 if ctx.quick else 250
+    n = 90 if ctx.quick else 1000
+    chunk = 90 if ctx.quick else 250
     bad, traces, totals = [], [], {}
     # the harness is deterministic per case index; split into chunks to bound TLC's memory
     full = ctx.path("bq_all.ndjson")
